@@ -34,7 +34,8 @@ prop("C02",
      "(in-degree with forward structure, out-degree with reversed structure, build() orientation, StreamOpts::rev/default), "
      "sole ready-sends (preload of zero-count ids, release guarded by COUNTS[child]==0 after its decrement), sole count writes "
      "(-=1 once per child of the id received from DONE, no early exit), done-send dominated by the Ready arm of the user "
-     "future's await, and id consistency (dequeued id = looked-up id = id sent on DONE).",
+     "future's await, and id consistency (dequeued id = looked-up id = id sent on DONE); "
+     "B1 (every StreamOpts builder method keeps the fields it does not set: `rev()` survives later option calls) and R3 (edge counts and structure copies are taken after data-edge augmentation).",
      "MIR dataflow: value-source (allocation-site) provenance + dominance/control-dependence over resolved callees",
      "the induction along a topological order (paper); correctness of futures' fold/for_each_concurrent/join! and tokio channels")
 
@@ -44,7 +45,8 @@ prop("C03",
       ("R3", B.R3, ("K0",), {"parts": ("structures", "counts")})],
      K01,
      "Decides S2 (each ready-send is the preload of all zero-count nodes or the release at count==0 after the decrement), "
-     "S3 (counts only decrease by one per predecessor edge) and S6 (channel capacities are monotone in node_count so try_send never drops an id).",
+     "S3 (counts only decrease by one per predecessor edge), S6 (channel capacities are monotone in node_count so try_send never drops an id) "
+     "and R3 (counts and structure copies describe the same, augmented, graph).",
      "MIR dataflow: allocation-site provenance of channels/counts, expression reconstruction of guards and capacities",
      "liveness of user futures; the at-most-once induction (paper)")
 
@@ -55,7 +57,8 @@ prop("C04",
      K01,
      "Decides the release-obligation table T1 per public entry point (done-sender released on EMPTY / FINISHED / INTERRUPTED / FAILED; "
      "ready-sender released by the queuer), T2 (queuer and scheduler joined), T3 (wake-up typestate of every hand-written poll function "
-     "outside the stream family), S6 (capacities) and S7 (fallible sends never unwrapped).",
+     "outside the stream family, plus an inventory of every receive site), S6 (capacities), S7 (fallible sends never unwrapped), S2/S3 (every root preloaded, every "
+     "successor released at count 0), T4 (interrupt notices reach the scheduler) and A1 (no protocol future dropped or polled once and abandoned).",
      "MIR typestate dataflow over poll functions + release-obligation table via control dependence and provenance, per entry point through the call graph",
      "absence of panics from index/arithmetic checks; fairness inside futures/tokio")
 
@@ -66,12 +69,9 @@ prop("C05",
      K01,
      "Decides T3 on the stream poll closure (no return that may be Pending after a Ready(Some) from the done receiver without re-polling it), "
      "U1 (end-of-stream bookkeeping: countdown from node_count decremented on Ready(Some), both senders released at 0 and for the empty graph, "
-     "READY polled only while the done-sender is held), S2/S3/S5 on the in-poll release loop, and U2 = S4(b)+S7 (FnRef::drop sends its own id, result discarded).",
+     "READY polled only while the done-sender is held), S2/S3/S5 on the in-poll release loop, and U2 = S4(b)+S7 (FnRef::drop sends its own id on every path through drop, result discarded).",
      "MIR path-sensitive typestate dataflow (receiver wake-up state) + provenance",
      "tokio's poll_recv waker contract (trusted; Ready(Some) registers no waker)")
-
-import rules_build as B
-import rules_run as R
 
 K0 = ("K0",)
 K04 = ("K0", "K4")      # builder-side rules: with and without the async feature
@@ -98,7 +98,7 @@ prop("C06",
      "Decides W4 = L1 (limit forwarded unchanged, so None gates nothing), W1 (the only edge-adding call on the user's graph reachable from build() is update_edge with the constant Edge::Data, "
      "no other node/edge-set mutator), W2 (the comparison pairs feeding its guard contain no read x read pair and no same-function pair; "
      "expected-zero rule with a seeded positive control in the self-test), the guard being exactly the disjunction of the comparisons (R1 truth table), "
-     "and W3 = S2/S3 (every successor reaching count 0 is queued in the same visit; the release walk has no early exit).",
+     "W3 = S2/S3 (every successor reaching count 0 is queued in the same visit; the release walk has no early exit) and S2 (all zero-count functions are preloaded).",
      "MIR who-may-call inventory over the call graph of build() + provenance of comparison operands",
      "the quiescence statement over runs (whenever idle, everything runnable was started)")
 
@@ -108,7 +108,9 @@ prop("C11",
      K04,
      "Decides B1 (phase order: ranks, then augmentation, then counts and structure copies, all on the same graph which becomes FnGraph.graph), "
      "B2 (no add_node/remove/clear/retain reaches the user's Dag from build()), B3 (the only added edge is Edge::Data, control dependent on "
-     "has_path_connecting(G,a,b) == false for the same (a,b): an existing edge is never overwritten), B4 (structure copies complete), B5 = R1/R2.",
+     "has_path_connecting(G,a,b) == false for the same (a,b): an existing edge is never overwritten), B4 (structure copies complete), B5 = R1/R2, "
+     "P1 (panic-site inventory of build(): no trapping arithmetic, explicit panic, unwrap other than on an edge insertion, or computed slice bound) and "
+     "E1-E3 (every accepted logic/contains edge is stored by update_edge with the kind its method names).",
      "MIR dominance + who-may-call inventory + path-condition enumeration",
      "acyclicity of the augmented graph, unreachability of the two expect()s, and that every conflicting pair is joined by a path (semantic invariant of the rank-sorted scan)")
 
